@@ -117,7 +117,7 @@ func (rw *RuntimeErrorWrapper) Error() string {
 		code = werr.Code
 	}
 
-	callStack := rw.vm.GetCallStack()
+	callStack := rw.vm.GetErrorCallStack()
 	if len(callStack) > 0 {
 		// append head lines
 		headTrace := callStack[0]
